@@ -23,8 +23,9 @@ const (
 	mwShort
 	mwFailBefore
 	mwFailAfter
-	mwFailCtx // fails before calling next with an error that wraps a context error (its own backend call timed out)
-	mwStamp   // after next: when the result is a map, adds a member named after the request to it, in place
+	mwFailCtx    // fails before calling next with an error that wraps a context error (its own backend call timed out)
+	mwStamp      // after next: when the result is a map, adds a member named after the request to it, in place
+	mwModReqCopy // like mwModReq, but hands a new request object (deep copy with the modified arguments) to the next stage
 	numMW
 )
 
@@ -46,7 +47,7 @@ func genC15(t *rapid.T) C15Case {
 	c := C15Case{Mode: Mode(rapid.IntRange(0, 5).Draw(t, "mode"))}
 	n := rapid.IntRange(0, 4).Draw(t, "chainlen")
 	for i := 0; i < n; i++ {
-		c.Chain = append(c.Chain, rapid.SampledFrom([]int{mwPass, mwPass, mwModReq, mwModRes, mwShort, mwFailBefore, mwFailAfter, mwFailCtx, mwStamp, mwStamp}).Draw(t, "mw"))
+		c.Chain = append(c.Chain, rapid.SampledFrom([]int{mwPass, mwPass, mwModReq, mwModReqCopy, mwModReqCopy, mwModRes, mwShort, mwFailBefore, mwFailAfter, mwFailCtx, mwStamp, mwStamp}).Draw(t, "mw"))
 	}
 	c.Split = rapid.IntRange(0, n).Draw(t, "split")
 	c.NSess = rapid.IntRange(1, 3).Draw(t, "nsess")
@@ -126,6 +127,20 @@ func makeMW(i, kind int, rec *c15Rec) mcp.Middleware {
 				return nil, fmt.Errorf("mw%d-failed", i)
 			case mwFailCtx:
 				return nil, fmt.Errorf("mw%d-failed: %w", i, []error{context.DeadlineExceeded, context.Canceled}[i%2])
+			case mwModReqCopy:
+				cp := *req
+				if b, err := json.Marshal(req.Params); err == nil && req.Params != nil {
+					var pm map[string]interface{}
+					if json.Unmarshal(b, &pm) == nil && pm != nil {
+						if args, ok := pm["arguments"].(map[string]interface{}); ok {
+							if n, ok := args["nonce"].(string); ok {
+								args["nonce"] = n + fmt.Sprintf("+m%d", i)
+							}
+						}
+						cp.Params = pm
+					}
+				}
+				req = &cp
 			case mwModReq:
 				if pm, ok := req.Params.(map[string]interface{}); ok {
 					if args, ok := pm["arguments"].(map[string]interface{}); ok {
@@ -361,7 +376,7 @@ func execC15(c C15Case) *Failure {
 				if k == mwShort || k == mwFailBefore || k == mwFailCtx {
 					break
 				}
-				if k == mwModReq {
+				if k == mwModReq || k == mwModReqCopy {
 					n += fmt.Sprintf("+m%d", i)
 				}
 			}
